@@ -31,6 +31,14 @@ def run(ctx):
     facts = ctx.facts()
     from rules import C17
     C17.parse_errors(ctx, facts)      # the receive path parses records with RecordsStream: a parse error must surface
+    core(ctx, facts)
+    from rules import C01
+    C01.prf_wiring(ctx, facts)        # resharding by PRF value: the picker reads the PRF value only (same on all helpers)
+    ctx.assume("gateway delivery (C13) and message timing are not decided here")
+
+
+def core(ctx, facts):
+    """the resharding exchange itself (also run by the properties that rely on it: C05, C11)"""
     tree = facts.tree(ROOT)
     if not tree:
         return ctx.missing("ROUTE", ROOT)
@@ -51,7 +59,6 @@ def run(ctx):
     split(ctx, facts)
     err_adapters(ctx, facts)
     wrappers(ctx, facts)
-    ctx.assume("gateway delivery (C13) and message timing are not decided here")
 
 
 def route(ctx, facts, b):
